@@ -13,7 +13,7 @@ func init() {
 	register(&Check{
 		ID:  "C10",
 		Run: runC10,
-		Explanation: "Decides the code-shape clauses of cancellation: (R1 propagation) in every function of the read path (pkg/pdfcpu, pkg/pdfcpu/model) that has a context.Context parameter, every call to a function that takes a context passes a value derived from that parameter — context.Background()/TODO() appear only in the documented non-context entry points; (R2 identity of the error) an error obtained from a context-taking callee or from c.Err() is handed on unchanged or wrapped with %w — a fmt.Errorf that renders it with %v/%s (or replaces it by a sentinel) breaks errors.Is(err, ctx.Err()) and is rejected; every `if err := c.Err(); err != nil` returns that error; (R3 polling) every loop in such a function whose body calls a context-taking function of the module polls c.Err() inside the loop on every iteration path before that call (facts are killed at loop headers, so a poll hoisted in front of the loop does not count), unless the callee itself polls before doing any work (always-summary). NOT decided: the latency bound (timing), observation of a pre-cancelled context before any work.",
+		Explanation: "Decides the code-shape clauses of cancellation: (R1 propagation) in every function of the read path (pkg/pdfcpu, pkg/pdfcpu/model) that has a context.Context parameter, every call to a function that takes a context passes a value derived from that parameter — context.Background()/TODO() appear only in the documented non-context entry points; (R2 identity of the error) an error obtained from a context-taking callee or from c.Err() is handed on unchanged or wrapped with %w — a fmt.Errorf that renders it with %v/%s (or replaces it by a sentinel) breaks errors.Is(err, ctx.Err()) and is rejected; every `if err := c.Err(); err != nil` returns that error; (R3 polling) every loop in such a function whose body calls a context-taking function of the module polls c.Err() inside the loop on every iteration path before that call (facts are killed at loop headers, so a poll hoisted in front of the loop does not count), unless the callee itself polls before doing any work (always-summary). R2 also requires that on the edge where the error of a context-taking callee is non-nil, every return reached before the context is observed again (immediate successor of the edge and blocks dominated by it) returns an error that depends on the callee's error (itself, %w, errors.Join) or nil (deliberate repair); a different sentinel there renames a cancellation. NOT decided: the latency bound (timing), observation of a pre-cancelled context before any work.",
 		Rules: []string{
 			"C10.R1 WMC/flow: the caller's context is what callees receive",
 			"C10.R2 flow: cancellation errors keep their identity (returned as-is or %w)",
@@ -129,6 +129,9 @@ func runC10(c *Ctx) {
 			}
 		}
 		hasCtx := prm != nil || fv != nil
+		if hasCtx {
+			checkCalleeErrorKept(c, fn)
+		}
 		// ---- R1
 		k := 0
 		eachInstr(fn, func(_ *ssa.BasicBlock, _ int, i ssa.Instruction) {
@@ -449,4 +452,85 @@ func errFromContextCallee(v ssa.Value, prm *ssa.Parameter, depth int, seen map[s
 		return errFromContextCallee(x.X, prm, depth+1, seen)
 	}
 	return false
+}
+
+// ---------------- C10.R2b (round 2 of seeding): the error of a context-taking callee is not replaced ----------------
+//
+// On the edge where the error result e of a context-taking callee is non-nil, every return reached before the context is
+// observed again (another context-taking call, or c.Err()) must return an error that depends on e (e itself, %w, errors.Join):
+// returning some other error there turns a cancellation into "corrupt ..." and errors.Is(err, ctx.Err()) fails.
+func checkCalleeErrorKept(c *Ctx, fn *ssa.Function) {
+	p, r := c.P, c.R
+	fid := FuncID(fn)
+	k := 0
+	eachInstr(fn, func(_ *ssa.BasicBlock, _ int, i ssa.Instruction) {
+		call, ok := i.(*ssa.Call)
+		if !ok {
+			return
+		}
+		g := staticCallee(call)
+		if g == nil || !takesContext(g) || !isSubject(g) {
+			return
+		}
+		for _, e := range errorResults(call) {
+			edges := nilCheckEdges(e, false)
+			if len(edges) == 0 {
+				continue
+			}
+			k++
+			construct := fmt.Sprintf("%s#%d error kept", g.Name(), k)
+			var bad []string
+			for _, ed := range edges {
+				start := ed.From.Succs[ed.Succ]
+				// explore forward from the non-nil edge; stop at blocks that observe the context again
+				seen := map[*ssa.BasicBlock]bool{}
+				stack := []*ssa.BasicBlock{start}
+				for len(stack) > 0 {
+					b := stack[len(stack)-1]
+					stack = stack[:len(stack)-1]
+					// stay on the error path: blocks dominated by the error edge, plus the edge's immediate successor (the
+					// usual `if err != nil || other { return … }` shares that block with the other condition)
+					if seen[b] || (b != start && !edgeDominates(ed, b)) {
+						continue
+					}
+					seen[b] = true
+					reobserved := false
+					for _, in := range b.Instrs {
+						if cc, ok := in.(*ssa.Call); ok {
+							if h := staticCallee(cc); h != nil && takesContext(h) {
+								reobserved = true
+							}
+							if cc.Call.IsInvoke() && cc.Call.Method.Name() == "Err" && isContextType(cc.Call.Value) {
+								reobserved = true
+							}
+						}
+					}
+					if reobserved {
+						continue
+					}
+					if ret, ok := b.Instrs[len(b.Instrs)-1].(*ssa.Return); ok {
+						depends := false
+						for _, rv := range ret.Results {
+							if isErrorType(rv.Type()) && errDependsOn(rv, e, 0, map[ssa.Value]bool{}) {
+								depends = true
+							}
+						}
+						if kind, has := returnErrKind(ret); has && kind == errNil {
+							depends = true // error deliberately absorbed (repair path returns success): not a cancellation being renamed
+						}
+						if !depends {
+							bad = append(bad, p.Pos(ret.Pos()))
+						}
+						continue
+					}
+					stack = append(stack, b.Succs...)
+				}
+			}
+			if len(bad) == 0 {
+				r.OK("C10.R2", fid, construct, p.Pos(call.Pos()), "every return on the error edge (before the context is observed again) returns an error that wraps the callee's", true)
+			} else {
+				r.Bad("C10.R2", fid, construct, p.Pos(call.Pos()), "when this context-taking callee fails, the return at "+strings.Join(dedupStrings(bad), ", ")+" reports a different error and drops the callee's: a cancellation is reported as some other failure and errors.Is(err, ctx.Err()) is false")
+			}
+		}
+	})
 }
